@@ -26,6 +26,14 @@ if os.path.isdir(_deps) and _deps not in sys.path:
 
 from vf import core  # noqa: E402
 
+try:  # kill -USR1 <pid> dumps the Python stack of a stuck process to stderr
+    import faulthandler
+    import signal
+
+    faulthandler.register(signal.SIGUSR1, all_threads=True)
+except Exception:  # noqa: BLE001
+    pass
+
 core.install_repo_path()
 os.environ.setdefault("HYPOTHESIS_STORAGE_DIRECTORY", os.path.join(VERIF, "out", "hypothesis"))
 
@@ -100,10 +108,31 @@ class ShardStats:
                     slot.update(case=case, detail=detail, size=size)
 
 
+CASE_WATCHDOG_S = 600
+
+
+class CaseWatchdog(BaseException):
+    pass
+
+
+def _alarm(signum, frame):
+    raise CaseWatchdog()
+
+
 def checked(tgt, case):
-    """Run tgt.check; an exception escaping from library code is a failure, from harness code an error."""
+    """Run tgt.check; an exception escaping from library code is a failure, from harness code an error.
+    A case that runs longer than CASE_WATCHDOG_S is reported as a harness error (inconclusive), never as a violation."""
+    import signal as _signal
+
+    try:
+        _signal.signal(_signal.SIGALRM, _alarm)
+        _signal.alarm(CASE_WATCHDOG_S)
+    except (ValueError, AttributeError):
+        pass
     try:
         return tgt.check(case)
+    except CaseWatchdog:
+        raise RuntimeError(f"case exceeded {CASE_WATCHDOG_S}s (inconclusive): {core.canon(case)[:300]}")
     except Exception as exc:  # noqa: BLE001
         in_repo, where = core.innermost_repo_frame(exc)
         if in_repo:
@@ -111,6 +140,11 @@ def checked(tgt, case):
                 (f"crash/{type(exc).__name__}/{where}", f"{type(exc).__name__}: {exc}")
             ]
         raise
+    finally:
+        try:
+            _signal.alarm(0)
+        except (ValueError, AttributeError):
+            pass
 
 
 def _pin_hypothesis():
